@@ -59,6 +59,7 @@ type c19Step struct {
 	Intent map[string]c19Intent `json:"intent,omitempty"` // per URL parameter of a config field
 	Page   map[string]string    `json:"page,omitempty"`   // query of the page whose menu is read
 	Raw    string               `json:"raw,omitempty"`    // seed: contents written to settings.json
+	Enc    string               `json:"enc,omitempty"`    // "" = form encoding (space "+"), "raw" = %20
 }
 
 type c19Case struct {
@@ -94,12 +95,23 @@ func (s c19Step) saveQuery() url.Values {
 	return q
 }
 
+// c19Encode renders a query the way the web UI's common.js does (URL.searchParams.set: form encoding,
+// space as "+") or, with enc "raw", as a percent-encoded raw query (encodeURIComponent: space as
+// "%20").  Both decode, ONCE, to the same values.
+func c19Encode(q url.Values, enc string) string {
+	out := q.Encode() // a literal "+" in a value is %2B here, so every "+" is a space
+	if enc == "raw" {
+		out = strings.ReplaceAll(out, "+", "%20")
+	}
+	return out
+}
+
 func (s c19Step) request() string {
 	switch s.Op {
 	case "save":
-		return "/saveconfig?" + s.saveQuery().Encode()
+		return "/saveconfig?" + c19Encode(s.saveQuery(), s.Enc)
 	case "delete":
-		return "/deleteconfig?" + url.Values{"config": {s.Name}}.Encode()
+		return "/deleteconfig?" + c19Encode(url.Values{"config": {s.Name}}, s.Enc)
 	}
 	return ""
 }
@@ -113,7 +125,8 @@ func (s c19Step) reqTok() string {
 
 // ---------------- generators ----------------
 
-var c19Strings = []string{"main", "foo|bar", "a b", `"q"`, `back\slash`, "<&>", "ü€😀", "%41", "a+b", "x;y", "k=v", "#frag", "tab\there", "nl\nhere", "^(runtime|sync)\\.", ".*", "minimum", "flat", "true", "0", " lead", "ms"}
+var c19Strings = []string{"main", "foo|bar", "a b", `"q"`, `back\slash`, "<&>", "ü€😀", "%41", "a+b", "x;y", "k=v", "#frag", "tab\there", "nl\nhere", "^(runtime|sync)\\.", ".*", "minimum", "flat", "true", "0", " lead", "ms",
+	"%20", "%2B", "%25", "100%", "a%20b", "cpu+hot", "?x=1", "/usr/lib", "a&b=c", "%", "+", "%zz", strings.Repeat("long+%25 ", 200)}
 
 func c19GenParam(r *Rng, f c19Field) (string, c19Intent) {
 	val := func(v c19Val) c19Intent { return c19Intent{Kind: "val", Val: v} }
@@ -453,6 +466,12 @@ func (e *c19Env) runSeq(cs c19Case) (nontrivial bool) {
 				if after.Exists != before.Exists || !bytes.Equal(after.Raw, before.Raw) {
 					c.Violation("C19/"+st.Op+"/failed-request-changed-file", "request failed ("+c19Trunc(body)+") but the settings file changed", cs)
 				}
+				if _, nb := c19Find(before.Entries, st.Name); st.Op == "delete" && nb > 0 {
+					c.Violation("C19/delete/existing-config-rejected", fmt.Sprintf("configuration %q is in settings.json but deleting it is refused: %s", st.Name, c19Trunc(body)), cs)
+				}
+				if st.Op == "save" && st.Name != "" && c19AllValid(st) {
+					c.Violation("C19/save/valid-request-rejected", fmt.Sprintf("saving %q with valid options is refused: %s", st.Name, c19Trunc(body)), cs)
+				}
 			} else {
 				e.frame(before, after, st.Name, st.Op, cs)
 				_, nb := c19Find(before.Entries, st.Name)
@@ -616,6 +635,15 @@ func c19NormMenu(rep string) string {
 	return b.String()
 }
 
+func c19AllValid(st c19Step) bool {
+	for _, in := range st.Intent {
+		if in.Kind == "err" || in.Kind == "encfail" {
+			return false
+		}
+	}
+	return true
+}
+
 func c19SeqKey(cs c19Case) string {
 	var b strings.Builder
 	for _, s := range cs.Steps {
@@ -624,13 +652,13 @@ func c19SeqKey(cs c19Case) string {
 			keys = append(keys, k+"="+s.Params[k])
 		}
 		sort.Strings(keys)
-		fmt.Fprintf(&b, "%s/%s/%s/%v;", s.Op, s.Name, strings.Join(keys, "&"), s.Page)
+		fmt.Fprintf(&b, "%s/%s/%s/%v/%s;", s.Op, s.Name, strings.Join(keys, "&"), s.Page, s.Enc)
 	}
 	return b.String()
 }
 
 func runC19(c *Ctx) {
-	c.Res.Rule = "(i) random sequences (4-12 steps, optional hand-written seed file) of /saveconfig (random subset of URL-carried options; per kind canonical, alternative, invalid and unset spellings), /deleteconfig, menu reads and apply (follow a menu URL, save under a new name) against the real handlers; non-trivial = a save with >=1 non-default option followed by a delete or apply; (i') 120 histories of 7-17 steps on ONE server over 2-3 names x 2-3 fixed option sets with exactly repeated requests (30% of requests repeat an earlier one), deletes, menu reads and external edits of settings.json between requests (entry dropped, file removed), each step judged against the model and the direct oracle; non-trivial = some request occurs twice; " +
+	c.Res.Rule = "(i) random sequences (4-12 steps, optional hand-written seed file) of /saveconfig (random subset of URL-carried options; per kind canonical, alternative, invalid and unset spellings), /deleteconfig, menu reads and apply (follow a menu URL, save under a new name) against the real handlers; non-trivial = a save with >=1 non-default option followed by a delete or apply; (i') 120 histories of 7-20 steps on ONE server over 2-3 names (30% plain; 50% a URL-encoded-looking name together with its one- and two-fold URL decodings; 20% awkward: %, +, &, =, #, ?, /, quotes, unicode, 2.8 kB) x 2-3 fixed option sets, requests form-encoded as common.js does or raw with %20 with exactly repeated requests (30% of requests repeat an earlier one), deletes, menu reads and external edits of settings.json between requests (entry dropped, file removed), each step judged against the model and the direct oracle; non-trivial = some request occurs twice; " +
 		"(ii) one strace'd save per protocol scenario mapped to model ops and judged by fs.accepts; (iii) write error / kill at every write syscall, every byte position (RLIMIT_FSIZE sweep) and at rename; (iv) rounds of 16 concurrent save/delete requests, final file judged per name against all serial orders by the model; distinct by canonical case text"
 	scratch := filepath.Join(c.Dir, fmt.Sprintf("scratch-%d", os.Getpid()))
 	os.RemoveAll(scratch)
